@@ -22,11 +22,12 @@ CATALOGUES = {
         "C|A|+|B|+|1|2M", "C|A|-|B|+|0|*|ID:Z:c1",
         "P|p1|A+,B+|2M1D1M", "P|p2|B-,A-|*", "P|p4|A+,B+,C-|*,*",
         "P|p5|A+,C+,A+|1M,*,*",
-        "#| comment", "H|xx:i:1",
+        "#| comment", "H|xx:i:1", "H|TS:i:1", "H|yy:i:2|TS:i:2",
     ], ids=["A", "B", "C", "p1", "p2", "l1", "c1", "zz", "1", "3"], unused=True,
         renames=[("A", "D"), ("A", "B"), ("B", "p1"), ("p1", "q"), ("l1", "l2"), ("C", "zz"), ("A", "4"), ("3", "5"),
                  ("l1", "6"), ("p1", "9")],
-        tagedits=[("A", "xx:i:5"), ("B", "LN:i:7"), ("p1", "yy:Z:a b"), ("l1", "RC:i:3")]),
+        tagedits=[("A", "xx:i:5"), ("B", "LN:i:7"), ("p1", "yy:Z:a b"), ("l1", "RC:i:3")],
+        deltags=[("l1", "ID:Z:l1"), ("c1", "ID:Z:c1")]),
     "gfa1s": dict(version="gfa1", lines=[
         "S|A|*", "S|B|*", "S|C|*",
         "L|A|+|B|+|2M1D1M", "L|A|+|C|+|*", "L|B|-|A|-|1M1I2M", "L|A|+|A|-|*",
@@ -85,6 +86,10 @@ CATALOGUES["perml"] = dict(version="gfa1", lines=[
     "S|A|*", "S|B|*", "L|A|-|A|-|1M", "L|A|+|B|+|*", "L|B|+|B|+|2M1D1M", "P|p|A+,A+,B+|*",
     "P|q|B-,A-,A-|*", "P|r|B+,B+|2M1D1M", "P|s|B-,B-,A-|1M1I2M,*",
 ], ids=["A", "B", "p", "q"], renames=[])
+# version queue with clashing identifiers (known findings of C08: the flush is not transactional)
+CATALOGUES["kfq"] = dict(version="none", lines=[
+    "P|A|B+,C+|*", "S|A|*", "L|A|+|B|+|*|ID:Z:x", "P|x|A+,B+|*", "S|B|*", "#| c",
+], ids=["A", "x"], renames=[])
 CATALOGUES["ver"] = dict(version="none", lines=[
     "H|xx:i:1", "H|VN:Z:1.0", "H|VN:Z:2.0", "H|VN:Z:3.0",
     "S|A|*", "S|a|3|*",
@@ -149,6 +154,8 @@ def build_ops(cat):
         ops.append(dict(k="unused", text="", id="", id2=""))
     if cat.get("validate"):
         ops.append(dict(k="validate", text="", id="", id2=""))
+    for ident, tag in cat.get("deltags", []):
+        ops.append(dict(k="deltag", text="H\t" + tag, id=ident, id2=""))
     for ident, tag in cat.get("tagedits", []):
         ops.append(dict(k="settag", text="H\t" + tag, id=ident, id2=""))
         ops.append(dict(k="deltag", text="H\t" + tag, id=ident, id2=""))
